@@ -1397,6 +1397,11 @@ class Store:
                 mother_steps = self.get_path(mother_path).get_steps()
                 deep_merge_check(
                     processes, copy.deepcopy(mother_steps) or {})
+                # a copy must not inherit a command that is still
+                # pending in the mother's process (update in flight)
+                for _, process in dict_to_paths((), processes):
+                    process._pending_command = None
+                    process._command_result = None
 
             # get the daughter topology
             if 'topology' in daughter:
